@@ -45,4 +45,6 @@ MUTANTS = [
     m("c16-twin-progress-guard-le0", None, SG, "                if counter_next > n_slow_stage_iter or n_window_iter < 1:", "                if n_window_iter <= 0 or counter_next > n_slow_stage_iter:", twin=True),
     m("c16-warmup-stage-needs-adapters", "R1", SG, "        if n_warm_up_iter > 0:\n            warm_up_trace_funcs = trace_funcs if trace_warm_up else None\n            sampling_stages[\"Adaptive warm up\"]", "        if n_warm_up_iter > 0 and (adapters or trace_warm_up):\n            warm_up_trace_funcs = trace_funcs if trace_warm_up else None\n            sampling_stages[\"Adaptive warm up\"]", key="condition"),
     m("c16-twin-warmup-cond-flipped", None, SG, "        if n_warm_up_iter > 0:\n            warm_up_trace_funcs = trace_funcs if trace_warm_up else None\n            sampling_stages[\"Adaptive warm up\"]", "        if 0 < n_warm_up_iter:\n            warm_up_trace_funcs = trace_funcs if trace_warm_up else None\n            sampling_stages[\"Adaptive warm up\"]", twin=True),
+    m("c16-update-skipped-without-stats", "R2", SA, "                    state, trans_stats = transition.sample(state, rng)\n                    if adapters is not None and trans_key in adapters:", "                    state, trans_stats = transition.sample(state, rng)\n                    if trans_stats is None:\n                        continue\n                    if adapters is not None and trans_key in adapters:", key="adapter.update:condition"),
+    m("c16-record-stats-from-trace-funcs", "R1", SG, "            record_stats = trace_warm_up\n            # initial fast adaptation stage", "            record_stats = warm_up_trace_funcs is not None\n            # initial fast adaptation stage", key="record_stats"),
 ]
